@@ -157,6 +157,10 @@ func (s *Service) Answer(c *Call) map[string]interface{} {
 type Transport struct{ Fed *Fed }
 
 func (t *Transport) RoundTrip(r *http.Request) (*http.Response, error) {
+	// like a real transport: a request whose context is already cancelled is not sent
+	if err := r.Context().Err(); err != nil {
+		return nil, err
+	}
 	var svc *Service
 	for _, s := range t.Fed.Services {
 		if strings.HasPrefix(r.URL.String(), s.URL) || r.URL.Host == hostOf(s.URL) {
